@@ -16,7 +16,8 @@ C57 — log observers receive every event; filters honour the namespace hierarch
     `levelFor_eq_most_specific_prefix`, `governs_total`, `levelFor_governs`,
     `filter_passes_iff_level_ge_most_specific_prefix`, `filter_drops_events_without_level_or_namespace`
   * `LimitedHistoryLogObserver` (model `Twisted.Log.Buffer`): `history_replays_last_N_in_order`,
-    `history_replays_last_N_reentrant`, `history_after_reentrant_replay`, …
+    `history_replays_last_N_reentrant`, `history_after_reentrant_replay`, `history_replay_to_self`(`_last_N`,
+    `_full`, `_unbounded`: the observer replayed to is the history observer itself), …
 -/
 namespace TwistedProps.C57
 
@@ -144,6 +145,58 @@ example : ((observeAll (⟨some 2, []⟩ : Hist Nat) [10, 11, 12, 13]).replayTo
     (fun i => if i = 0 then [20] else if i = 1 then [21, 22] else [])).1 = [12, 13] := by decide
 example : ((observeAll (⟨some 2, []⟩ : Hist Nat) [10, 11, 12, 13]).replayTo
     (fun i => if i = 0 then [20] else if i = 1 then [21, 22] else [])).2.replay = [21, 22] := by decide
+
+/-! ### the history observer replayed to itself; the same event logged more than once -/
+
+theorem flatMap_getElem?_toList {α : Type} (pre l : List α) :
+    (List.range' pre.length l.length).flatMap (fun i => (pre ++ l)[i]?.toList) = l := by
+  induction l generalizing pre with
+  | nil => simp
+  | cons a l ih =>
+    have h := ih (pre ++ [a])
+    simp only [List.length_append, List.length_cons, List.length_nil, List.append_assoc, List.singleton_append,
+      Nat.zero_add] at h
+    simp only [List.length_cons, List.range'_succ, List.flatMap_cons, h]
+    simp
+
+/-- **Replaying a history observer to itself**: it is handed its own buffer — the last `N` events — and observes
+    them: afterwards its state is the state after the stream `es` followed by those events once more. -/
+theorem history_replay_to_self {α : Type} (es : List α) (h0 : Hist α) :
+    (observeAll h0 es).replayToSelf = observeAll h0 (es ++ (observeAll h0 es).replay) := by
+  unfold Hist.replayToSelf
+  rw [history_after_reentrant_replay]
+  have := flatMap_getElem?_toList [] (observeAll h0 es).buf
+  simp only [List.length_nil, List.nil_append] at this
+  rw [this]
+  rfl
+
+/-- size `N`: after `h.replayTo(h)` the next replay hands over the last `N` of (the stream, then its last `N` again) -/
+theorem history_replay_to_self_last_N {α : Type} (N : Nat) (es : List α) (h0 : Hist α)
+    (hnew : Hist.new (some (N : Int)) = some h0) :
+    (observeAll h0 es).replayToSelf.replay =
+      (es ++ es.drop (es.length - N)).drop ((es ++ es.drop (es.length - N)).length - N) := by
+  rw [history_replay_to_self, history_replays_last_N_in_order N es h0 hnew,
+    history_replays_last_N_in_order N _ h0 hnew]
+
+/-- a full buffer is unchanged by it -/
+theorem history_replay_to_self_full {α : Type} (N : Nat) (es : List α) (h0 : Hist α)
+    (hnew : Hist.new (some (N : Int)) = some h0) (hfull : N ≤ es.length) :
+    (observeAll h0 es).replayToSelf.replay = es.drop (es.length - N) := by
+  rw [history_replay_to_self_last_N N es h0 hnew]
+  rw [List.drop_append_of_le_length (by simp; omega)]
+  have : (es ++ List.drop (es.length - N) es).length - N = es.length := by simp; omega
+  rw [this]; simp
+
+/-- unbounded: everything is there twice -/
+theorem history_replay_to_self_unbounded {α : Type} (es : List α) (h0 : Hist α) (hnew : Hist.new none = some h0) :
+    (observeAll h0 es).replayToSelf.replay = es ++ es := by
+  rw [history_replay_to_self, history_unbounded_replays_all es h0 hnew, history_unbounded_replays_all _ h0 hnew]
+
+example : (observeAll (⟨some 3, []⟩ : Hist Nat) [10, 11]).replayToSelf.replay = [11, 10, 11] := by decide
+example : (observeAll (⟨some 2, []⟩ : Hist Nat) [10, 11, 12]).replayToSelf.replay = [11, 12] := by decide
+example : (observeAll (⟨none, []⟩ : Hist Nat) [10, 11]).replayToSelf.replay = [10, 11, 10, 11] := by decide
+/-- the same event logged twice is two events -/
+example : (observeAll (⟨some 3, []⟩ : Hist Nat) [10, 10, 11, 11]).replay = [10, 11, 11] := by decide
 
 end Buffer
 
